@@ -84,6 +84,9 @@ impl GarbageCollector {
         let chunk_keys = self.store.scan("_blob:chunk:");
 
         for chunk_key in chunk_keys.into_iter().take(self.config.batch_size) {
+            // The count test and the delete form one step: a writer taking a reference on
+            // this chunk must not run in between.
+            let _count_guard = ref_count_lock(&chunk_key);
             if let Ok(tensor) = self.store.get(&chunk_key) {
                 #[cfg(feature = "neumann_verif")]
                 verif_refcount_window(&chunk_key);
@@ -178,7 +181,7 @@ static REF_COUNT_LOCKS: [Mutex<()>; REF_COUNT_STRIPES] = [REF_COUNT_LOCK_INIT; R
 
 /// A count is read, changed and written back: concurrent updates of the same chunk
 /// must not interleave or one of them is lost.
-fn ref_count_lock(chunk_key: &str) -> MutexGuard<'static, ()> {
+pub(crate) fn ref_count_lock(chunk_key: &str) -> MutexGuard<'static, ()> {
     let mut hasher = DefaultHasher::new();
     chunk_key.hash(&mut hasher);
     #[allow(clippy::cast_possible_truncation)]
@@ -232,8 +235,15 @@ pub fn decrement_chunk_refs(store: &TensorStore, chunk_key: &str) -> Result<()> 
 /// # Errors
 ///
 /// Returns an error if the store operation fails.
+#[cfg(test)]
 pub fn increment_chunk_refs(store: &TensorStore, chunk_key: &str) -> Result<()> {
     let _count_guard = ref_count_lock(chunk_key);
+    increment_chunk_refs_locked(store, chunk_key).map(|_| ())
+}
+
+/// Increment the count of a chunk whose count lock the caller holds. Returns whether the
+/// chunk record was found.
+pub(crate) fn increment_chunk_refs_locked(store: &TensorStore, chunk_key: &str) -> Result<bool> {
     if let Ok(mut tensor) = store.get(chunk_key) {
         #[cfg(feature = "neumann_verif")]
         verif_refcount_window(chunk_key);
@@ -243,8 +253,9 @@ pub fn increment_chunk_refs(store: &TensorStore, chunk_key: &str) -> Result<()> 
             tensor_store::TensorValue::Scalar(tensor_store::ScalarValue::Int(refs + 1)),
         );
         store.put(chunk_key, tensor)?;
+        return Ok(true);
     }
-    Ok(())
+    Ok(false)
 }
 
 fn current_timestamp() -> u64 {
